@@ -579,7 +579,7 @@ func (cu *CellUnion) decode(d *decoder) {
 		return
 	}
 	const maxCells = 1000000
-	if n > maxCells {
+	if n < 0 || n > maxCells {
 		d.err = fmt.Errorf("too many cells (%d; max is %d)", n, maxCells)
 		return
 	}
